@@ -188,6 +188,11 @@ LawChecks(r, st) ==
          /\ SharedNamesAgreeInTree(st.heap[r.r]) ->
          {<<"C06", "concat_keeps_child_attribution">>,
           <<"C06", "concat_lines_first_mapped_piece">>}
+         \* the stream a consumer (a ReplaceSource, a CachedSource) reads: a cached child may
+         \* answer the second call from what the first stored (K1/K4), so cache-free trees only
+         \cup (IF /\ \A x \in {r.r} \cup ToSet(r.children) : <<x, "stream", TRUE, FALSE>> \in DOMAIN st.obs
+                    /\ "cached" \notin Kinds(st.heap[r.r])
+                 THEN {<<"C06", "concat_stream_keeps_child_streams">>} ELSE {})
          \cup (IF /\ \A x \in {r.r} \cup ToSet(r.children) : <<x, "stream", TRUE, FALSE>> \in DOMAIN st.obs
                     /\ "cached" \notin Kinds(st.heap[r.r])
                  THEN {<<"DRIFT", "concat_stream_follows_ConcatM">>} ELSE {})
@@ -240,6 +245,12 @@ LawHolds(c, r, st) ==
               IN (IsMapLeaf(t) /\ MapFitsText(LeafMap(t), t.b)) =>
                    LET given == ByteAttrsOfMap(LeafMap(t), t.b)
                    IN \A i \in 1..Len(t.b) : Full(whole[offs[k] + i]) = Full(given[i])
+    [] c = <<"C06", "concat_stream_keeps_child_streams">> ->
+         LET n == Len(r.children)
+             mine == ByteAttrsOfStream(StreamChunks(st.obs[<<r.r, "stream", TRUE, FALSE>>].ev))
+             theirs == Concat([k \in 1..n |->
+                         ByteAttrsOfStream(StreamChunks(st.obs[<<r.children[k], "stream", TRUE, FALSE>>].ev))])
+         IN SameFull(mine, theirs)
     [] c = <<"C06", "concat_lines_first_mapped_piece">> ->
          LET n == Len(r.children)
              texts == [k \in 1..n |-> Seen(st, r.children[k], "source").t]
